@@ -226,8 +226,13 @@ _mtbl_sorter_write_chunk(struct entry_batch *b)
 					     entry_val(next_ent), next_ent->len_val,
 					     &merge_val, &len_merge_val);
 				if (merge_val == NULL) {
+					/* Give up on this chunk: release what has not been consumed yet. */
+					for (unsigned j = i; j < entry_vec_size(b->entries); j++)
+						free(entry_vec_value(b->entries, j));
+					entry_vec_destroy(&b->entries);
 					free(b);
 					mtbl_writer_destroy(&w);
+					close(fd);
 					return (NULL);
 				}
 				size_t len = sizeof(struct entry) + ent->len_key + len_merge_val;
@@ -413,6 +418,7 @@ mtbl_sorter_iter(struct mtbl_sorter *s)
 		mtbl_res res = _mtbl_sorter_flush(s);
 
 		if (res != mtbl_res_success) {
+			mtbl_merger_options_destroy(&mopt);
 			free(it);
 			return (NULL);
 		}
